@@ -372,8 +372,31 @@ pub fn eval_case(case: &Case, stats: &mut Counters) -> Option<Violation> {
                 stats.inc("skipped/declared dimensions above 4096");
                 None
             }
-            ParseOutcome::Ok(_) => {
+            ParseOutcome::Ok(back) => {
                 stats.inc("faulted text parsed Ok");
+                // "returns a matrix": what comes back must be one — a set of positions, both views
+                // agreeing, nothing listed twice — and, being a matrix, must itself round-trip
+                // through the writer in the prescribed form (seeded change C08-r5-3: a column
+                // list `2 1 2` was accepted with the entry stored twice)
+                if let Some(why) = malformed_matrix(&back) {
+                    return Some(Violation::new("parser-malformed-matrix", format!("from_alist accepted a {} text and returned an object that is not a matrix: {}", origin, why)));
+                }
+                let m = BitMat::from_sparse(&back);
+                for padded in [true, false] {
+                    let mut w = FaultyWriter::new(None, None);
+                    match write_with(&back, padded, &mut w) {
+                        Ok(Ok(())) => {}
+                        _ => return Some(Violation::new("roundtrip", format!("the matrix parsed from a {} text cannot be written ({})", origin, if padded { "padded" } else { "unpadded" }))),
+                    }
+                    if let Err(e) = check_format(&m, &w.out, padded) {
+                        return Some(Violation::new("format", format!("the matrix parsed from a {} text is written in a wrong form ({}): {}", origin, if padded { "padded" } else { "unpadded" }, e)));
+                    }
+                    match guarded_parse(&w.out) {
+                        ParseOutcome::Ok(again) if BitMat::from_sparse(&again) == m => {}
+                        ParseOutcome::Skipped => {}
+                        _ => return Some(Violation::new("roundtrip", format!("the matrix parsed from a {} text does not survive being written and parsed again", origin))),
+                    }
+                }
                 None
             }
             ParseOutcome::Err => {
@@ -382,6 +405,48 @@ pub fn eval_case(case: &Case, stats: &mut Counters) -> Option<Violation> {
             }
         },
     }
+}
+
+/// None if `h` is a proper matrix: no entry listed twice, row view and column view the same set,
+/// every index inside the dimensions.
+fn malformed_matrix(h: &SparseMatrix) -> Option<String> {
+    let (nr, nc) = (h.num_rows(), h.num_cols());
+    let mut from_cols = std::collections::BTreeSet::new();
+    for j in 0..nc {
+        let mut seen = std::collections::BTreeSet::new();
+        for &i in h.iter_col(j) {
+            if i >= nr {
+                return Some(format!("column {} lists row {} of {}", j, i, nr));
+            }
+            if !seen.insert(i) {
+                return Some(format!("column {} lists row {} twice", j, i));
+            }
+            from_cols.insert((i, j));
+        }
+        if h.col_weight(j) != seen.len() {
+            return Some(format!("column {} has weight {} but {} distinct entries", j, h.col_weight(j), seen.len()));
+        }
+    }
+    let mut from_rows = std::collections::BTreeSet::new();
+    for i in 0..nr {
+        let mut seen = std::collections::BTreeSet::new();
+        for &j in h.iter_row(i) {
+            if j >= nc {
+                return Some(format!("row {} lists column {} of {}", i, j, nc));
+            }
+            if !seen.insert(j) {
+                return Some(format!("row {} lists column {} twice", i, j));
+            }
+            from_rows.insert((i, j));
+        }
+        if h.row_weight(i) != seen.len() {
+            return Some(format!("row {} has weight {} but {} distinct entries", i, h.row_weight(i), seen.len()));
+        }
+    }
+    if from_rows != from_cols {
+        return Some("the row view and the column view are different sets".to_string());
+    }
+    None
 }
 
 fn subst_char(g: &mut Stream, ch: u8) -> u8 {
@@ -456,6 +521,35 @@ pub fn storage_faults(g: &mut Stream, text: &str, other: &str, stats: &mut Count
                 out.push((v.join("\n"), "absurd weight value"));
                 stats.inc("faults_fired/absurd value on a weight line");
             }
+        }
+    }
+    // an index list whose entries are reordered and/or repeated (a merge of two copies of a
+    // line, an editor's paste): valid indices, but not the sorted duplicate-free list of the format
+    for _ in 0..6 {
+        if nl > 4 {
+            let li = 4 + g.below((nl - 4) as u64) as usize;
+            let toks: Vec<&str> = lines[li].split(' ').filter(|t| !t.is_empty() && *t != "0").collect();
+            if toks.is_empty() {
+                continue;
+            }
+            let mut t: Vec<String> = toks.iter().map(|x| x.to_string()).collect();
+            match g.below(3) {
+                0 => t.reverse(),
+                1 => {
+                    // first entry again at the end: a repeat that is not adjacent unless the list has one entry
+                    t.push(t[0].clone());
+                }
+                _ => {
+                    let a = g.below(t.len() as u64) as usize;
+                    let x = t[a].clone();
+                    let b = g.below(t.len() as u64 + 1) as usize;
+                    t.insert(b, x);
+                }
+            }
+            let mut v: Vec<String> = lines.iter().map(|s| s.to_string()).collect();
+            v[li] = t.join(" ");
+            out.push((v.join("\n"), "index list reordered or with a repeated entry"));
+            stats.inc("faults_fired/index list reordered or with a repeated entry");
         }
     }
     out.push((text.replace('\n', "\r\n"), "CRLF"));
